@@ -20,7 +20,7 @@ ASSUMPTIONS = ['inputs exactly representable as doubles within the core domain',
 EXHAUSTIVE = True
 EXHAUSTIVE_SUBDOMAINS = {'quick': ['quarter-LSB grid, n_word<=6, all n_frac/modes: direction, bound, ties, monotonicity, idempotence of every code'],
                          'thorough': ['same for n_word<=8']}
-REQUIRED_CLASSES = {'tie': 500, 'inexact': 500, 'idem': 500, 'mono-pairs': 500}
+REQUIRED_CLASSES = {'tie': 500, 'inexact': 500, 'idem': 500, 'mono-pairs': 500, 'int-carrier': 500}
 
 
 def relation_violation(mode, k, x):
@@ -58,8 +58,15 @@ def check_relations(ctx, case):
     vs = [C.v_from_x4(x4, f) for x4 in x4s]
     sig = 'rel/%s/%s' % (how, route)
     F = C.Fxp()
-    if how == 'array':
-        arr = np.array([float(v) for v in vs], dtype=np.float64)
+    if how in ('int-array', 'int-scalar'):
+        # integer carriers: only inputs that are whole numbers travel this way (they still need rounding when n_frac<0)
+        keep = [i for i, v in enumerate(vs) if v.denominator == 1 and abs(v) < 2 ** 62]
+        x4s, xs, vs = [x4s[i] for i in keep], [xs[i] for i in keep], [vs[i] for i in keep]
+        if not vs:
+            return
+        case = dict(case, x4s=x4s)
+    if how in ('array', 'int-array'):
+        arr = np.array([float(v) for v in vs], dtype=np.float64) if how == 'array' else np.array([int(v) for v in vs], dtype=np.int64)
         ok, res = ctx.guard(case, store, fmt, mode, arr, route, '1d', len(vs), (1, len(vs)), sig_prefix=sig + '/')
         if not ok:
             return
@@ -70,7 +77,7 @@ def check_relations(ctx, case):
     else:
         got, fl = [], []
         for v in vs:
-            ok, res = ctx.guard(case, store, fmt, mode, float(v), route, 'scalar', 1, (1, 1), sig_prefix=sig + '/')
+            ok, res = ctx.guard(case, store, fmt, mode, float(v) if how == 'scalar' else int(v), route, 'scalar', 1, (1, 1), sig_prefix=sig + '/')
             if not ok:
                 return
             xobj, sel = res
@@ -180,6 +187,13 @@ def task_grid(ctx, fmts, scalar=False):
             check_relations(ctx, case)
             if scalar:
                 check_relations(ctx, dict(case, how='scalar', route='ctor'))
+            if f < 0:
+                # whole-number inputs through integer carriers are inexact only for negative n_frac
+                check_relations(ctx, dict(case, how='int-array', route='ctor', x4s=x4s))
+                check_relations(ctx, dict(case, how='int-array', route='setitem_int', x4s=inr))
+                if scalar:
+                    check_relations(ctx, dict(case, how='int-scalar', route='call', x4s=inr))
+                ctx.cls('int-carrier', len(inr))
             n_in = len(inr)
             ctx.cls('tie', n_in // 4)
             ctx.cls('inexact', n_in // 2)
@@ -211,7 +225,8 @@ def st_rel_case(draw):
                 x4 = 4 * hi if M.sig_bits(4 * hi) <= 53 else 0
         x4s.append(x4)
     return {'check': 'rel', 'fmt': list(fmt), 'mode': list(draw(C.st_modes())), 'x4s': x4s,
-            'how': draw(st.sampled_from(['array', 'scalar'])), 'route': draw(st.sampled_from(['ctor', 'call', 'set_val', 'setitem']))}
+            'how': draw(st.sampled_from(['array', 'scalar', 'int-array', 'int-scalar'])),
+            'route': draw(st.sampled_from(['ctor', 'call', 'set_val', 'setitem', 'setitem_int']))}
 
 
 def body_rel(ctx, case):
